@@ -1,1 +1,872 @@
-fn main() { eprintln!("engine not built yet"); std::process::exit(2); }
+//! Engine family `fs` (C17, C18, C19): the artifact planner (`FileSystemState::{from, recreate_all,
+//! diff}`), the writer (`apply_file_system_operations`, run in a scratch directory under
+//! /tmp/hx_fs_<pid>/) and `compile`'s glue between them, against the real crates.
+//!
+//! Encodings (one request per line, tab separated fields):
+//!   ArtSet     `-` | item{,item}          item  = `path=hex(content)`, path = `f` | `e/s/f`
+//!   OptArtSet  `none` | ArtSet
+//!   Tree       `absent` | `@=hex` | entry{,entry}   entry = `./` | `rel/` | `rel=hex`   (sorted)
+//!   Ops        `-` | op{,op}              op    = `D:p` | `C:p` | `W:p:idx` | `X:p`, p = `.` | rel
+//! Requests:
+//!   fs.plan    old:OptArtSet  new:ArtSet                       => canonical-ops  raw-ops
+//!   fs.apply   init:Tree  arts:ArtSet  ops:Ops  fault  judge   => ok:<n>|err:injected|err:io|panic  Tree
+//!   fs.session init:Tree  step…   (step = `c|ArtSet|fault`, `v`, `n`)
+//!                                  => per step  ok:<n>:<Tree> | err:injected | err:io | panic | diag:<same|changed>:<S|N><S|N>
+use artifact_content::FileSystemState;
+use common_lang_types::{
+    ArtifactPath, ArtifactPathAndContent, EntityNameAndSelectableName, FileSystemOperation,
+};
+use hx_common::*;
+use intern::string_key::Intern;
+use isograph_compiler::verif;
+use std::cell::Cell;
+use std::fs;
+use std::panic::{catch_unwind, AssertUnwindSafe};
+use std::path::{Path, PathBuf};
+
+// ------------------------------------------------------------------------------------------------
+// artifacts
+
+#[derive(Clone, Debug, PartialEq)]
+struct Art {
+    nested: Option<(String, String)>,
+    file: String,
+    content: String,
+}
+
+impl Art {
+    fn path(&self) -> String {
+        match &self.nested {
+            Some((e, s)) => format!("{}/{}/{}", e, s, self.file),
+            None => self.file.clone(),
+        }
+    }
+}
+
+fn enc_arts(arts: &[Art]) -> String {
+    if arts.is_empty() {
+        return "-".into();
+    }
+    arts.iter()
+        .map(|a| format!("{}={}", a.path(), hex(a.content.as_bytes())))
+        .collect::<Vec<_>>()
+        .join(",")
+}
+
+fn dec_arts(s: &str) -> Option<Vec<Art>> {
+    if s == "-" {
+        return Some(vec![]);
+    }
+    let mut out = vec![];
+    for item in s.split(',') {
+        let (p, h) = item.split_once('=')?;
+        let content = String::from_utf8(unhex(h)?).ok()?;
+        let comps: Vec<&str> = p.split('/').collect();
+        match comps.as_slice() {
+            [f] => out.push(Art { nested: None, file: f.to_string(), content }),
+            [e, sel, f] => out.push(Art {
+                nested: Some((e.to_string(), sel.to_string())),
+                file: f.to_string(),
+                content,
+            }),
+            _ => return None,
+        }
+    }
+    Some(out)
+}
+
+fn to_real(arts: &[Art]) -> Vec<ArtifactPathAndContent> {
+    arts.iter()
+        .map(|a| ArtifactPathAndContent {
+            artifact_path: ArtifactPath {
+                type_and_field: a.nested.as_ref().map(|(e, s)| EntityNameAndSelectableName {
+                    parent_entity_name: e.as_str().intern().into(),
+                    selectable_name: s.as_str().intern().into(),
+                }),
+                file_name: a.file.as_str().intern().into(),
+            },
+            file_content: a.content.clone().into(),
+        })
+        .collect()
+}
+
+/// The tree a list of artifacts denotes (last artifact of a path wins).
+fn expected_tree(arts: &[Art]) -> String {
+    let mut v: Vec<String> = vec!["./".into()];
+    for (i, a) in arts.iter().enumerate() {
+        if arts[i + 1..].iter().any(|b| b.path() == a.path()) {
+            continue;
+        }
+        if let Some((e, s)) = &a.nested {
+            v.push(format!("{}/", e));
+            v.push(format!("{}/{}/", e, s));
+        }
+        v.push(format!("{}={}", a.path(), hex(a.content.as_bytes())));
+    }
+    v.sort();
+    v.dedup();
+    v.join(",")
+}
+
+// ------------------------------------------------------------------------------------------------
+// operations
+
+const ART_DIR_NAME: &str = "__isograph";
+
+fn rel(p: &Path, art_dir: &Path) -> String {
+    match p.strip_prefix(art_dir) {
+        Ok(r) if r.as_os_str().is_empty() => ".".into(),
+        Ok(r) => r.to_string_lossy().replace('\\', "/"),
+        Err(_) => "!outside".into(),
+    }
+}
+
+fn enc_op(op: &FileSystemOperation, art_dir: &Path) -> String {
+    match op {
+        FileSystemOperation::DeleteDirectory(p) => format!("D:{}", rel(p, art_dir)),
+        FileSystemOperation::CreateDirectory(p) => format!("C:{}", rel(p, art_dir)),
+        FileSystemOperation::WriteFile(p, i) => format!("W:{}:{}", rel(p, art_dir), i.idx),
+        FileSystemOperation::DeleteFile(p) => format!("X:{}", rel(p, art_dir)),
+    }
+}
+
+fn enc_ops(ops: &[FileSystemOperation], art_dir: &Path) -> Vec<String> {
+    ops.iter().map(|o| enc_op(o, art_dir)).collect()
+}
+
+fn join_or_dash(v: &[String]) -> String {
+    if v.is_empty() { "-".into() } else { v.join(",") }
+}
+
+fn abs(p: &str, art_dir: &Path) -> PathBuf {
+    if p == "." { art_dir.to_path_buf() } else { art_dir.join(p) }
+}
+
+fn dec_ops(s: &str, art_dir: &Path) -> Option<Vec<FileSystemOperation>> {
+    if s == "-" {
+        return Some(vec![]);
+    }
+    let mut out = vec![];
+    for item in s.split(',') {
+        let parts: Vec<&str> = item.split(':').collect();
+        match parts.as_slice() {
+            ["D", p] => out.push(FileSystemOperation::DeleteDirectory(abs(p, art_dir))),
+            ["C", p] => out.push(FileSystemOperation::CreateDirectory(abs(p, art_dir))),
+            ["X", p] => out.push(FileSystemOperation::DeleteFile(abs(p, art_dir))),
+            ["W", p, i] => out.push(FileSystemOperation::WriteFile(
+                abs(p, art_dir),
+                pico::Index::new(i.parse().ok()?),
+            )),
+            _ => return None,
+        }
+    }
+    Some(out)
+}
+
+/// The real planner on (old, new): `recreate_all` for a fresh session, `diff` otherwise.
+fn plan(old: Option<&[Art]>, new: &[Art], art_dir: &Path) -> Vec<FileSystemOperation> {
+    let new_real = to_real(new);
+    let new_state = FileSystemState::from(&new_real[..]);
+    match old {
+        None => FileSystemState::recreate_all(&new_state, art_dir),
+        Some(old) => {
+            let old_real = to_real(old);
+            let old_state = FileSystemState::from(&old_real[..]);
+            FileSystemState::diff(&old_state, &new_state, art_dir)
+        }
+    }
+}
+
+// ------------------------------------------------------------------------------------------------
+// scratch directories
+
+thread_local! { static CASE_NO: Cell<u64> = const { Cell::new(0) }; }
+
+fn base_dir() -> PathBuf {
+    PathBuf::from(format!("/tmp/hx_fs_{}", std::process::id()))
+}
+
+struct Scratch {
+    dir: PathBuf,
+}
+
+impl Scratch {
+    fn new() -> Scratch {
+        let n = CASE_NO.with(|c| {
+            c.set(c.get() + 1);
+            c.get()
+        });
+        let dir = base_dir().join(n.to_string());
+        let _ = fs::remove_dir_all(&dir);
+        fs::create_dir_all(&dir).expect("scratch dir");
+        Scratch { dir }
+    }
+    fn art_dir(&self) -> PathBuf {
+        self.dir.join(ART_DIR_NAME)
+    }
+}
+
+impl Drop for Scratch {
+    fn drop(&mut self) {
+        let _ = fs::remove_dir_all(&self.dir);
+    }
+}
+
+fn build_tree(root: &Path, spec: &str) -> Option<()> {
+    if spec == "absent" {
+        return Some(());
+    }
+    if let Some(h) = spec.strip_prefix("@=") {
+        return fs::write(root, unhex(h)?).ok();
+    }
+    let mut entries: Vec<&str> = spec.split(',').collect();
+    entries.sort();
+    if !entries.contains(&"./") {
+        return None;
+    }
+    for e in entries {
+        if e == "./" {
+            fs::create_dir(root).ok()?;
+        } else if let Some(d) = e.strip_suffix('/') {
+            fs::create_dir(root.join(d)).ok()?;
+        } else {
+            let (p, h) = e.split_once('=')?;
+            let path = root.join(p);
+            if path.exists() {
+                return None;
+            }
+            fs::write(path, unhex(h)?).ok()?;
+        }
+    }
+    Some(())
+}
+
+fn walk(dir: &Path, prefix: &str, out: &mut Vec<String>) {
+    if let Ok(rd) = fs::read_dir(dir) {
+        for entry in rd.flatten() {
+            let name = entry.file_name().to_string_lossy().to_string();
+            let relp = if prefix.is_empty() { name } else { format!("{}/{}", prefix, name) };
+            let p = entry.path();
+            match fs::symlink_metadata(&p) {
+                Ok(m) if m.is_dir() => {
+                    out.push(format!("{}/", relp));
+                    walk(&p, &relp, out);
+                }
+                Ok(m) if m.is_file() => {
+                    out.push(format!("{}={}", relp, hex(&fs::read(&p).unwrap_or_default())))
+                }
+                _ => out.push(format!("{}=?", relp)),
+            }
+        }
+    }
+}
+
+fn snapshot(root: &Path) -> String {
+    match fs::symlink_metadata(root) {
+        Err(_) => "absent".into(),
+        Ok(m) if m.is_file() => format!("@={}", hex(&fs::read(root).unwrap_or_default())),
+        Ok(m) if m.is_dir() => {
+            let mut v = vec!["./".to_string()];
+            walk(root, "", &mut v);
+            v.sort();
+            v.join(",")
+        }
+        Ok(_) => "other".into(),
+    }
+}
+
+// ------------------------------------------------------------------------------------------------
+// run
+
+fn dec_fault(s: &str) -> Option<Option<usize>> {
+    if s == "-" { Some(None) } else { s.parse().ok().map(Some) }
+}
+
+enum Applied {
+    Ok(usize),
+    ErrInjected,
+    ErrIo,
+    Panic,
+}
+
+/// The real `apply_file_system_operations` with the fault counter armed at `fault`.
+fn apply_real(
+    ops: &[FileSystemOperation],
+    arts: &[ArtifactPathAndContent],
+    fault: Option<usize>,
+) -> Applied {
+    verif::arm_fault(fault);
+    let res = catch_unwind(AssertUnwindSafe(|| verif::apply_file_system_operations(ops, arts)));
+    let fired = fault.is_some() && !verif::fault_armed();
+    verif::arm_fault(None);
+    match res {
+        Ok(Ok(n)) => Applied::Ok(n),
+        Ok(Err(_)) if fired => Applied::ErrInjected,
+        Ok(Err(_)) => Applied::ErrIo,
+        Err(_) => Applied::Panic,
+    }
+}
+
+fn run_plan(f: &[&str]) -> Option<String> {
+    let old = if f[1] == "none" { None } else { Some(dec_arts(f[1])?) };
+    let new = dec_arts(f[2])?;
+    let art_dir = PathBuf::from("/nonexistent/hx_fs").join(ART_DIR_NAME);
+    let ops = plan(old.as_deref(), &new, &art_dir);
+    let raw = enc_ops(&ops, &art_dir);
+    let mut canon = raw.clone();
+    canon.sort();
+    Some(format!("{}\t{}", join_or_dash(&canon), join_or_dash(&raw)))
+}
+
+fn run_apply(f: &[&str]) -> Option<String> {
+    let sc = Scratch::new();
+    let art_dir = sc.art_dir();
+    let arts = dec_arts(f[2])?;
+    let ops = dec_ops(f[3], &art_dir)?;
+    let fault = dec_fault(f[4])?;
+    if build_tree(&art_dir, f[1]).is_none() {
+        return Some("badinit".into());
+    }
+    let real = to_real(&arts);
+    let head = match apply_real(&ops, &real, fault) {
+        Applied::Ok(n) => format!("ok:{}", n),
+        Applied::ErrInjected => "err:injected".into(),
+        Applied::ErrIo => "err:io".into(),
+        Applied::Panic => "panic".into(),
+    };
+    Some(format!("{}\t{}", head, snapshot(&art_dir)))
+}
+
+/// Does `compile` drop the in-memory state when applying fails?  The glue between planning and
+/// applying lives inside `compile` (generic over the whole compiler database), so the session
+/// engine re-states it here; which variant the current source has is read by the translator t_fs
+/// (shape pin) and handed over in HX_FS_RESET.
+fn reset_on_io_error() -> bool {
+    std::env::var("HX_FS_RESET").map(|v| v == "1").unwrap_or(false)
+}
+
+fn run_session(f: &[&str]) -> Option<String> {
+    let sc = Scratch::new();
+    let art_dir = sc.art_dir();
+    if build_tree(&art_dir, f[1]).is_none() {
+        return Some("badinit".into());
+    }
+    let mut state: Option<FileSystemState> = None;
+    let mut out: Vec<String> = vec![];
+    for step in &f[2..] {
+        if *step == "n" {
+            state = None;
+            out.push("new".into());
+            continue;
+        }
+        if *step == "v" {
+            // `let (artifacts, stats) = get_artifact_path_and_content(db)?;` returned the diagnostics
+            let before = snapshot(&art_dir);
+            let sb = state.is_some();
+            let after = snapshot(&art_dir);
+            let sa = state.is_some();
+            let flag = |b: bool| if b { "S" } else { "N" };
+            out.push(format!(
+                "diag:{}:{}{}",
+                if before == after { "same" } else { "changed" },
+                flag(sb),
+                flag(sa)
+            ));
+            continue;
+        }
+        let parts: Vec<&str> = step.split('|').collect();
+        if parts.len() != 3 || parts[0] != "c" {
+            return None;
+        }
+        let arts = dec_arts(parts[1])?;
+        let fault = dec_fault(parts[2])?;
+        let real = to_real(&arts);
+        // the body of `compile` after validation succeeded
+        let ops = verif::get_file_system_operations(&real, &art_dir, &mut state);
+        match apply_real(&ops, &real, fault) {
+            Applied::Ok(n) => out.push(format!("ok:{}:{}", n, snapshot(&art_dir))),
+            Applied::ErrInjected => {
+                if reset_on_io_error() {
+                    state = None;
+                }
+                out.push("err:injected".into())
+            }
+            Applied::ErrIo => {
+                if reset_on_io_error() {
+                    state = None;
+                }
+                out.push("err:io".into())
+            }
+            Applied::Panic => {
+                state = None; // the process is gone
+                out.push("panic".into())
+            }
+        }
+    }
+    Some(out.join("\t"))
+}
+
+fn run(f: &[&str]) -> String {
+    let r = catch_unwind(AssertUnwindSafe(|| match (f[0], f.len()) {
+        ("fs.plan", 3) => run_plan(f),
+        ("fs.apply", 6) => run_apply(f),
+        ("fs.session", n) if n >= 2 => run_session(f),
+        _ => None,
+    }));
+    match r {
+        Ok(Some(s)) => s,
+        Ok(None) => "bad-request".into(),
+        Err(_) => "panic".into(),
+    }
+}
+
+// ------------------------------------------------------------------------------------------------
+// generators
+
+const ENTITIES: &[&str] = &["User", "Query", "Pet", "Mutation"];
+const SELECTABLES: &[&str] = &["name", "Home", "avatar", "x"];
+const NESTED_FILES: &[&str] =
+    &["entrypoint.ts", "resolver_reader.ts", "param_type.ts", "output_type.ts", "query_text.ts"];
+const ROOT_FILES: &[&str] = &["iso.ts", "tsconfig.json", "persisted_documents.json"];
+const CONTENTS: &[&str] = &["", "a", "b", "a", "export default 1;\n", "caf\u{e9} \u{2192} \u{1F600}", "{}"];
+
+fn gen_content(r: &mut Rng) -> String {
+    if r.chance(1, 6) {
+        gen_text(r, 8, MIXED_ALPHABET)
+    } else {
+        r.pick(CONTENTS).to_string()
+    }
+}
+
+fn gen_nested(r: &mut Rng, ne: usize, ns: usize) -> Art {
+    Art {
+        nested: Some((ENTITIES[r.below(ne)].to_string(), SELECTABLES[r.below(ns)].to_string())),
+        file: r.pick(NESTED_FILES).to_string(),
+        content: gen_content(r),
+    }
+}
+
+fn gen_root(r: &mut Rng, insane: bool) -> Art {
+    // `insane`: a root file named like an entity (outside the name-sanity hypothesis)
+    let file = if insane { r.pick(ENTITIES).to_string() } else { r.pick(ROOT_FILES).to_string() };
+    Art { nested: None, file, content: gen_content(r) }
+}
+
+/// shape: 0 empty, 1 root files only (no nested file: the F8 shape), 2 nested only, 3/4 mixed,
+/// 5 mixed with duplicates, 6 insane names
+fn gen_arts_shape(r: &mut Rng, shape: usize) -> Vec<Art> {
+    let mut v = vec![];
+    let ne = r.range(1, ENTITIES.len());
+    let ns = r.range(1, SELECTABLES.len());
+    match shape {
+        0 => {}
+        1 => {
+            for _ in 0..r.range(1, 3) {
+                v.push(gen_root(r, false));
+            }
+        }
+        2 => {
+            for _ in 0..r.range(1, 7) {
+                v.push(gen_nested(r, ne, ns));
+            }
+        }
+        3 | 4 | 5 => {
+            for _ in 0..r.range(1, 8) {
+                if r.chance(1, 4) {
+                    v.push(gen_root(r, false));
+                } else {
+                    v.push(gen_nested(r, ne, ns));
+                }
+            }
+            if shape == 5 && !v.is_empty() {
+                for _ in 0..r.range(1, 2) {
+                    let mut d = r.pick(&v).clone();
+                    if r.chance(1, 2) {
+                        d.content = gen_content(r);
+                    }
+                    let at = r.below(v.len() + 1);
+                    v.insert(at, d);
+                }
+            }
+        }
+        _ => {
+            for _ in 0..r.range(1, 5) {
+                if r.chance(1, 2) {
+                    v.push(gen_root(r, true));
+                } else {
+                    v.push(gen_nested(r, ne, ns));
+                }
+            }
+        }
+    }
+    v
+}
+
+fn gen_arts(r: &mut Rng) -> Vec<Art> {
+    let shape = match r.below(40) {
+        0..=2 => 0,
+        3..=8 => 1,
+        9..=14 => 2,
+        15..=32 => 3,
+        33..=38 => 5,
+        _ => 6,
+    };
+    gen_arts_shape(r, shape)
+}
+
+/// One to three edits of an artifact list, the kinds the property names: content change, file
+/// added / removed, selectable added / removed, entity added / removed, re-ordering.
+fn mutate_arts(r: &mut Rng, arts: &[Art]) -> Vec<Art> {
+    let mut v = arts.to_vec();
+    for _ in 0..r.range(1, 3) {
+        match r.below(10) {
+            0 if !v.is_empty() => {
+                let i = r.below(v.len());
+                v[i].content = gen_content(r);
+            }
+            1 if !v.is_empty() => {
+                let i = r.below(v.len());
+                v.remove(i);
+            }
+            2 => v.push(gen_nested(r, ENTITIES.len(), SELECTABLES.len())),
+            3 => v.push(gen_root(r, false)),
+            4 if !v.is_empty() => {
+                // remove an entity
+                if let Some((e, _)) = r.pick(&v).nested.clone() {
+                    v.retain(|a| a.nested.as_ref().map(|n| n.0 != e).unwrap_or(true));
+                }
+            }
+            5 if !v.is_empty() => {
+                // remove a selectable
+                if let Some(n) = r.pick(&v).nested.clone() {
+                    v.retain(|a| a.nested.as_ref() != Some(&n));
+                }
+            }
+            6 if !v.is_empty() => {
+                // add a file next to an existing one
+                if let Some(n) = r.pick(&v).nested.clone() {
+                    v.push(Art { nested: Some(n), file: r.pick(NESTED_FILES).to_string(), content: gen_content(r) });
+                }
+            }
+            7 => {
+                // remove every root file / every nested file
+                if r.chance(1, 2) {
+                    v.retain(|a| a.nested.is_some());
+                } else {
+                    v.retain(|a| a.nested.is_none());
+                }
+            }
+            8 if v.len() > 1 => {
+                let i = r.below(v.len());
+                let j = r.below(v.len());
+                v.swap(i, j);
+            }
+            _ => {}
+        }
+    }
+    v
+}
+
+/// Initial directory contents: nothing, an empty directory, stale files and directories, a file
+/// where a directory is expected and the other way round, the tree of another artifact set, or
+/// (rarely) a plain file in place of the artifact directory.
+fn gen_tree(r: &mut Rng, hint: &[Art]) -> String {
+    match r.below(16) {
+        0 | 1 => "absent".into(),
+        2 | 3 => "./".into(),
+        4..=6 => {
+            let mut v: Vec<String> = vec!["./".into()];
+            for _ in 0..r.range(1, 4) {
+                match r.below(4) {
+                    0 => v.push(format!("stale{}.ts={}", r.below(3), hex(gen_content(r).as_bytes()))),
+                    1 => v.push(format!("{}={}", r.pick(ROOT_FILES), hex(gen_content(r).as_bytes()))),
+                    2 => {
+                        let e = *r.pick(ENTITIES);
+                        v.push(format!("{}/", e));
+                        if r.chance(1, 2) {
+                            let s = *r.pick(SELECTABLES);
+                            v.push(format!("{}/{}/", e, s));
+                            if r.chance(1, 2) {
+                                v.push(format!("{}/{}/{}={}", e, s, r.pick(NESTED_FILES), hex(gen_content(r).as_bytes())));
+                            }
+                        }
+                    }
+                    _ => {
+                        v.push("olddir/".into());
+                        v.push("olddir/deep/".into());
+                        v.push(format!("olddir/deep/f.ts={}", hex(gen_content(r).as_bytes())));
+                    }
+                }
+            }
+            v.sort();
+            v.dedup_by(|a, b| a.split('=').next() == b.split('=').next());
+            v.join(",")
+        }
+        7..=9 => {
+            let other = gen_arts(r);
+            if other.iter().any(|a| a.nested.is_none() && ENTITIES.contains(&a.file.as_str())) {
+                "./".into()
+            } else {
+                expected_tree(&other)
+            }
+        }
+        10 | 11 => {
+            // a file where a directory is expected
+            let nested: Vec<&Art> = hint.iter().filter(|a| a.nested.is_some()).collect();
+            if nested.is_empty() {
+                return "./".into();
+            }
+            let (e, s) = r.pick(&nested).nested.clone().unwrap();
+            if r.chance(1, 2) {
+                format!("./,{}=66", e)
+            } else {
+                format!("./,{}/,{}/{}=66", e, e, s)
+            }
+        }
+        12 | 13 => {
+            // a directory where a file is expected
+            if hint.is_empty() {
+                return "./".into();
+            }
+            let a = r.pick(hint);
+            match &a.nested {
+                None => format!("./,{}/,{}/inner=67", a.file, a.file),
+                Some((e, s)) => format!("./,{}/,{}/{}/,{}/{}/{}/", e, e, s, e, s, a.file),
+            }
+        }
+        14 => expected_tree(hint),
+        _ => "@=6e6f74206120646972".into(),
+    }
+}
+
+fn gen_plan(r: &mut Rng) -> Vec<String> {
+    let new;
+    let old;
+    match r.below(10) {
+        0..=2 => {
+            old = None;
+            new = gen_arts(r);
+        }
+        3..=7 => {
+            let o = gen_arts(r);
+            new = mutate_arts(r, &o);
+            old = Some(o);
+        }
+        8 => {
+            let o = gen_arts(r);
+            new = o.clone();
+            old = Some(o);
+        }
+        _ => {
+            old = Some(gen_arts(r));
+            new = gen_arts(r);
+        }
+    }
+    vec![format!(
+        "fs.plan\t{}\t{}",
+        old.as_ref().map(|o| enc_arts(o)).unwrap_or("none".into()),
+        enc_arts(&new)
+    )]
+}
+
+fn is_sane(arts: &[Art]) -> bool {
+    !arts.iter().any(|a| a.nested.is_none() && ENTITIES.contains(&a.file.as_str()))
+}
+
+fn gen_apply(r: &mut Rng, with_faults: bool) -> Vec<String> {
+    let art_dir = PathBuf::from("/nonexistent/hx_fs").join(ART_DIR_NAME);
+    let new = gen_arts(r);
+    let (old, init, mut judge) = if r.chance(1, 2) {
+        let init = gen_tree(r, &new);
+        let j = !init.starts_with('@') && is_sane(&new);
+        (None, init, j)
+    } else {
+        let o = if r.chance(1, 5) { gen_arts(r) } else { let n2 = mutate_arts(r, &new); n2 };
+        let sane = is_sane(&o) && is_sane(&new);
+        if r.chance(4, 5) && sane {
+            let t = expected_tree(&o);
+            (Some(o), t, true)
+        } else {
+            // the directory was edited behind the session's back: correspondence only
+            let t = gen_tree(r, &o);
+            (Some(o), t, false)
+        }
+    };
+    let mut ops = enc_ops(&plan(old.as_deref(), &new, &art_dir), &art_dir);
+    // malformed stream: operation lists no planner produces
+    if r.chance(1, 6) {
+        judge = false;
+        for _ in 0..r.range(1, 3) {
+            match r.below(6) {
+                0 if !ops.is_empty() => {
+                    let i = r.below(ops.len());
+                    ops.remove(i);
+                }
+                1 if ops.len() > 1 => {
+                    let i = r.below(ops.len());
+                    let j = r.below(ops.len());
+                    ops.swap(i, j);
+                }
+                2 => {
+                    let at = r.below(ops.len() + 1);
+                    let p = match r.below(4) {
+                        0 => ".".to_string(),
+                        1 => r.pick(ENTITIES).to_string(),
+                        2 => format!("{}/{}", r.pick(ENTITIES), r.pick(SELECTABLES)),
+                        _ => format!("{}/{}/{}", r.pick(ENTITIES), r.pick(SELECTABLES), r.pick(NESTED_FILES)),
+                    };
+                    let op = match r.below(4) {
+                        0 => format!("D:{}", p),
+                        1 => format!("C:{}", p),
+                        2 => format!("X:{}", p),
+                        _ => format!("W:{}:{}", p, r.below(new.len() + 2)),
+                    };
+                    ops.insert(at, op);
+                }
+                3 => {
+                    let at = r.below(ops.len() + 1);
+                    ops.insert(at, format!("X:{}", r.pick(ROOT_FILES)));
+                }
+                4 => {
+                    let at = r.below(ops.len() + 1);
+                    ops.insert(at, format!("W:{}:{}", r.pick(ROOT_FILES), new.len() + r.below(2)));
+                }
+                _ => {
+                    let at = r.below(ops.len() + 1);
+                    ops.insert(at, format!("C:{}/{}/deeper/still", r.pick(ENTITIES), r.pick(SELECTABLES)));
+                }
+            }
+        }
+    }
+    let faults: Vec<String> = if with_faults {
+        (0..=ops.len()).map(|k| k.to_string()).collect()
+    } else {
+        vec!["-".to_string()]
+    };
+    faults
+        .iter()
+        .map(|k| {
+            format!(
+                "fs.apply\t{}\t{}\t{}\t{}\t{}",
+                init,
+                enc_arts(&new),
+                join_or_dash(&ops),
+                k,
+                if judge { 1 } else { 0 }
+            )
+        })
+        .collect()
+}
+
+fn n_ops(old: Option<&[Art]>, new: &[Art]) -> usize {
+    let art_dir = PathBuf::from("/nonexistent/hx_fs").join(ART_DIR_NAME);
+    plan(old, new, &art_dir).len()
+}
+
+fn gen_sane_arts(r: &mut Rng) -> Vec<Art> {
+    loop {
+        let a = gen_arts(r);
+        if is_sane(&a) || r.chance(1, 20) {
+            return a;
+        }
+    }
+}
+
+/// Sessions without faults (C18): first compile on arbitrary directory contents, then edits.
+fn gen_session_plain(r: &mut Rng, with_diag: bool) -> Vec<String> {
+    let mut cur = gen_sane_arts(r);
+    let init = gen_tree(r, &cur);
+    let mut steps = vec![];
+    if with_diag && r.chance(1, 4) {
+        steps.push("v".to_string());
+    }
+    steps.push(format!("c|{}|-", enc_arts(&cur)));
+    for _ in 0..r.range(0, 4) {
+        match r.below(12) {
+            0 => steps.push("n".into()),
+            1 | 2 | 3 if with_diag => steps.push("v".into()),
+            _ => {
+                cur = if r.chance(1, 8) { gen_sane_arts(r) } else { mutate_arts(r, &cur) };
+                steps.push(format!("c|{}|-", enc_arts(&cur)));
+            }
+        }
+    }
+    if with_diag {
+        steps.push("v".into());
+    }
+    vec![format!("fs.session\t{}\t{}", init, steps.join("\t"))]
+}
+
+/// Sessions with an injected fault at every operation index k of one compile (C19), followed by a
+/// recompile in the same session and in a fresh one.
+fn gen_session_faults(r: &mut Rng) -> Vec<String> {
+    let first = gen_sane_arts(r);
+    let init = gen_tree(r, &first);
+    let mut prefix: Vec<String> = vec![];
+    // the failing compile is either the first of the session or a later one
+    let old: Option<Vec<Art>> = if r.chance(1, 2) {
+        prefix.push(format!("c|{}|-", enc_arts(&first)));
+        Some(first.clone())
+    } else {
+        None
+    };
+    let failing = match &old {
+        Some(o) => mutate_arts(r, o),
+        None => first.clone(),
+    };
+    let n = n_ops(old.as_deref(), &failing);
+    let after = match r.below(4) {
+        0 => failing.clone(),
+        1 => gen_sane_arts(r),
+        _ => mutate_arts(r, &failing),
+    };
+    let later = mutate_arts(r, &after);
+    let mut out = vec![];
+    for k in 0..=n {
+        let mut steps = prefix.clone();
+        steps.push(format!("c|{}|{}", enc_arts(&failing), k));
+        match r.below(6) {
+            0 => steps.push("v".into()),
+            1 => {
+                // a second failure before the repair
+                let k2 = r.below(n + 2);
+                steps.push(format!("c|{}|{}", enc_arts(&after), k2));
+            }
+            _ => {}
+        }
+        if r.chance(1, 2) {
+            steps.push("n".into());
+        }
+        steps.push(format!("c|{}|-", enc_arts(&after)));
+        if r.chance(1, 2) {
+            steps.push(format!("c|{}|-", enc_arts(&later)));
+        }
+        out.push(format!("fs.session\t{}\t{}", init, steps.join("\t")));
+    }
+    out
+}
+
+fn gen(r: &mut Rng, i: u64) -> Vec<String> {
+    let engine = std::env::var("HX_ENGINE").unwrap_or_default();
+    match engine.as_str() {
+        "plan" => gen_plan(r),
+        "apply" => gen_apply(r, false),
+        "session" => gen_session_plain(r, false),
+        "c18" => match i % 5 {
+            0 | 1 => gen_plan(r),
+            2 | 3 => gen_apply(r, false),
+            _ => gen_session_plain(r, false),
+        },
+        "c19" => match i % 4 {
+            0 => gen_apply(r, true),
+            _ => gen_session_faults(r),
+        },
+        "c17" => gen_session_plain(r, true),
+        _ => vec![],
+    }
+}
+
+fn main() {
+    main_loop(&gen, &mut |f| run(f));
+    let _ = fs::remove_dir_all(base_dir());
+}
